@@ -246,6 +246,13 @@ func genScenario(p Profile, rs uint64, tier string) (*Scenario, *ExploreCfg) {
 	if sc.Worker != nil {
 		// the replication world does not go through the ledger store's data methods
 		sc.Knobs.RealSQL = false
+		sc.Knobs.RealSysSQL = RunSeed(0x737973, rs)%2 == 0
+		switch os.Getenv("VERIF_SQL") {
+		case "real":
+			sc.Knobs.RealSysSQL = true
+		case "model":
+			sc.Knobs.RealSysSQL = false
+		}
 	}
 	deepen(sc, ex, rs, tier)
 	return sc, ex
